@@ -17,7 +17,6 @@ import (
 	"reflect"
 	"runtime"
 	"runtime/debug"
-	"runtime/pprof"
 	"sort"
 	"strings"
 	"sync/atomic"
@@ -395,11 +394,6 @@ func main() {
 	}
 	runtime.GOMAXPROCS(job.GMP)
 	debug.SetGCPercent(800) // every template call allocates a fresh func map; do not spend the budget collecting it
-	if pf := os.Getenv("P09_PROF"); pf != "" {
-		f, _ := os.Create(pf)
-		pprof.StartCPUProfile(f)
-		defer pprof.StopCPUProfile()
-	}
 	devnull, _ = os.Open(os.DevNull)
 	verifhook.Set(handler)
 	var out p09.Out
